@@ -343,6 +343,7 @@ func meshHistories(c *Ctx, im *Impl) {
 			consts.RouteUpdate = 80 * time.Millisecond // many updates before the restart of history 0
 		}
 		m := NewMesh(consts)
+		m.NodeCostStyle = t%2 == 1 // every other history configures its link costs through per-node overrides
 		alive := map[string]bool{}
 		for _, id := range tp.names {
 			m.AddNode(id)
